@@ -120,7 +120,16 @@ func newC09World(r *Rng, nClients, nKeys, nAnons int) *c09World {
 		w.keys = append(w.keys, k)
 	}
 	for i := 0; i < nAnons; i++ {
+		// anonymous origin IDs are opaque bytes chosen by the client: the empty one, an ordinary one, a single zero byte, a long one
 		a := r.Bytes(32)
+		switch i % 4 {
+		case 0:
+			a = []byte{}
+		case 2:
+			a = []byte{0}
+		case 3:
+			a = r.Bytes(64)
+		}
 		w.anons = append(w.anons, a)
 		w.anonOrd[hex.EncodeToString(a)] = i
 	}
